@@ -72,6 +72,17 @@ CLAIMED["C06"] = dict(
          "rejected: they are C01/C04's subject). Population outputs are covered in C16's check.",
     design_ref="DESIGN.md §4 C06")
 
+CLAIMED["C08"] = dict(
+    technique="Hypothesis-generated circuits and input arrays; differential against the reference recurrence (fixed "
+              "step), against np.interp at function level and against an independently integrated solution (adaptive)",
+    text="Non-constant input arrays in all accepted shapes are sent to single and wildcard targets next to ordinary "
+         "edges; fixed-step trajectories must equal the reference recurrence (sample k used during step k), the "
+         "adaptive function must use the linear interpolant on linspace(0,T,N), and scipy runs must follow the "
+         "solution driven by that interpolant.",
+    note="NumPy backend (backend-specific interp is exercised in C02); only models whose input-free baseline agrees "
+         "with the reference are judged; adaptive tolerance 1e-3 relative (piecewise-linear input has kinks).",
+    design_ref="DESIGN.md §4 C08")
+
 NOT_YET = {}
 
 
